@@ -434,6 +434,109 @@ fn unspecified_destination(out: &mut Partial) {
     }
 }
 
+/// A request that has timed out but is still listed by the socket (entries are only reclaimed
+/// when the table is full) while the lookup it belongs to is kept open by a younger request:
+/// only the addressed peer may still answer it. Differential: at every 50 ms of that window a
+/// third party answers the expired request's id from another IP / another port of the peer's IP.
+fn expired_but_listed(out: &mut Partial) {
+    let target: Id20 = [0x3D; 20];
+    let forged_node = ([0xDDu8; 20], SocketAddrV4::new(Ipv4Addr::new(66, 6, 6, 7), 7777));
+    let vote = SocketAddrV4::new(Ipv4Addr::new(6, 6, 6, 6), 6666);
+    // endpoints: 0 bootstrap (far), 1 silent, 2 slow (450 ms), 3 silent and known to 2 only
+    let run = |inject: Option<(u64, u8)>| -> (String, Vec<SocketAddrV4>, Option<SocketAddrV4>, bool, Option<(Vec<u8>, SocketAddrV4, u64)>, u64) {
+        let mut w = World::new(Chooser::default_run());
+        let mut ids = crate::epnet::ranked_ids(&target, 4);
+        ids[0][0] ^= 0x80;
+        let mut net = EpNet::new(&mut w, &ids);
+        net.eps[1].silent = true;
+        net.eps[3].silent = true;
+        net.eps[0].knows = Some(vec![1, 2]);
+        net.eps[2].knows = Some(vec![3]);
+        let eps = net.addrs();
+        let a = w.add_node(NodeCfg::new([9, 9, 9, 9], 7000).bootstrap(&eps[..1]).id([0x21; 20]));
+        let a_addr = w.node_addr(a);
+        let h = w.now + 3 * SEC;
+        w.run_until(h, |w, ev| {
+            if let Event::EndpointRecv { ep, dgram } = ev {
+                net.handle(w, *ep, dgram);
+            }
+            false
+        });
+        let call = w.call_get_peers(a, target.into());
+        let t_call = w.now;
+        // the request to the first silent endpoint: (tid, address, sent at)
+        let mut silent_req: Option<(Vec<u8>, SocketAddrV4, u64)> = None;
+        let mut injected = false;
+        let horizon = w.now + 20 * SEC;
+        loop {
+            if let (Some((at_ms, src)), Some((tid, to, sent))) = (inject, silent_req.clone()) {
+                let when = sent + at_ms * MS;
+                if !injected && w.now >= when {
+                    let from = if src == 0 { SocketAddrV4::new(Ipv4Addr::new(66, 6, 6, 6), to.port()) } else { SocketAddrV4::new(*to.ip(), 4444) };
+                    let bytes = krpc::response(&tid, vec![("id", B::bytes([0xEEu8; 20])), ("token", B::bytes(b"evil")), ("nodes", B::bytes(krpc::compact_nodes(&[forged_node]))), ("values", B::List(vec![B::bytes([6, 6, 6, 9, 0, 80])]))], Some(&vote), Some(&krpc::VERSION_RS));
+                    w.send_raw_with_latency(from, a_addr, bytes, MS);
+                    injected = true;
+                }
+            }
+            let stop = match (inject, &silent_req) {
+                (Some((at_ms, _)), Some((_, _, sent))) if !injected => (sent + at_ms * MS).min(horizon),
+                _ => horizon,
+            };
+            let Some(ev) = w.step(stop) else {
+                if stop >= horizon {
+                    break;
+                }
+                w.advance_to(stop);
+                continue;
+            };
+            if let Event::EndpointRecv { ep, dgram } = &ev {
+                let i = net.index_of(*ep).expect("ep");
+                if let Some(q) = Krpc::parse(&dgram.bytes) {
+                    if q.is_query() {
+                        if i == 1 && q.query_target() == Some(target) && silent_req.is_none() {
+                            silent_req = Some((q.t.clone(), eps[1], dgram.sent_at));
+                        }
+                        if let Some(bytes) = net.honest_reply(i, &q, dgram.from, w.now) {
+                            let from = net.eps[i].addr;
+                            w.send_raw_with_latency(from, dgram.from, bytes, if i == 2 { 450 * MS } else { DEFAULT_LATENCY });
+                        }
+                    }
+                }
+            }
+            if w.result(call).is_some() && w.now > t_call + 3 * SEC {
+                break;
+            }
+        }
+        let res = format!("{:?}", w.result(call));
+        let s = w.snapshot(a);
+        let mut rt: Vec<SocketAddrV4> = s.core.routing_table.buckets.iter().flat_map(|(_, b)| b.iter().map(|n| n.address)).collect();
+        rt.sort();
+        let asked_forged = w.sent().any(|(d, _)| d.from_node == Some(a) && d.to == forged_node.1);
+        let done_ms = w.calls[call].done_at.map(|d| (d - t_call) / MS).unwrap_or(0);
+        (res, rt, s.core.public_address, asked_forged, silent_req, done_ms)
+    };
+    let (base_res, base_rt, base_pa, base_forged, silent_req, done_ms) = run(None);
+    out.add("executions", 1);
+    out.witness("the lookup outlived the first silent request's timeout", silent_req.is_some() && done_ms > 700 && !base_forged);
+    out.gauge_max("expired_window_lookup_ms", done_ms);
+    let mut at = 520u64;
+    while at + 60 < done_ms {
+        for src in 0..2u8 {
+            let (res, rt, pa, asked_forged, _, _) = run(Some((at, src)));
+            out.add("executions", 1);
+            out.add("expired_but_listed_injections", 1);
+            if res != base_res || rt != base_rt || pa != base_pa || asked_forged {
+                out.violation(
+                    format!("injection-has-effect/expired-but-listed/{}", if src == 0 { "wrong-ip" } else { "wrong-port" }),
+                    format!("a request to a silent node has timed out (sent {at} ms ago) while a younger request keeps the lookup open; a reply with its id from {} was accepted: result {res} vs {base_res}; routing table {} vs {} entries; address vote {pa:?} vs {base_pa:?}; the node listed by the forged reply was asked: {asked_forged}", if src == 0 { "another IP" } else { "another port of the peer's IP" }, rt.len(), base_rt.len()),
+                    json!({"part": "expired-listed"}),
+                );
+            }
+        }
+        at += 50;
+    }
+}
+
 fn eps_addrs() -> Vec<SocketAddrV4> {
     (0..4).map(|i| SocketAddrV4::new(crate::epnet::pub_ip(i), 6881)).collect()
 }
@@ -603,6 +706,9 @@ fn run(tier: Tier, shard: usize, nshards: usize, _seed: u64) -> Partial {
     if shard == 1 % nshards {
         unspecified_destination(&mut out);
     }
+    if shard == 2 % nshards {
+        expired_but_listed(&mut out);
+    }
 
     // --- part 2: duplicates and late replies of genuine answers
     let mut ex2 = Explorer::new(2, (shard, nshards));
@@ -699,6 +805,11 @@ impl TierExt for Tier {
 }
 
 fn replay(v: &Value) -> Result<Option<Violation>, String> {
+    if v.get("part").and_then(|p| p.as_str()) == Some("expired-listed") {
+        let mut out = Partial::default();
+        expired_but_listed(&mut out);
+        return Ok(out.violations.into_iter().next());
+    }
     if v.get("part").and_then(|p| p.as_str()) == Some("unspecified") {
         let mut out = Partial::default();
         unspecified_destination(&mut out);
